@@ -70,6 +70,19 @@ def ask(res, hp, fp, question, n):
     return w
 
 
+def codeinfo(res, hp, fp):
+    """the four limits of the code loader for the base font; refuses to go on if an instruction slot is not the 8 bytes the
+    model's pool arithmetic assumes"""
+    a = ask(res, hp, fp, "codeinfo", 5)
+    if a is None:
+        return None
+    if a[4] != "8":
+        res.failures.append({"harness": "h_pass", "mode": "loader", "line": "codeinfo", "impl": " ".join(a), "model": None, "exe_args": [fp],
+                             "why": "sizeof(instr) is %s, the model of the program pool assumes 8" % a[4]})
+        return None
+    return a[:4]
+
+
 def comp_holds(l, i):
     if i.startswith(("CRASH", "fault")):
         return False, "out-of-bounds access / crash in the " + l.split()[0] + " component: " + i[:120]
@@ -143,7 +156,7 @@ def run(ctx):
                 if a is None:
                     break
                 cok[pt] = a[0]
-            lims = ask(res, hp, bfp, "codeinfo", 4) if len(cok) == 4 else None
+            lims = codeinfo(res, hp, bfp) if len(cok) == 4 else None
             if lims is None:
                 continue
             li = tuple(int(x) for x in lims)
@@ -212,7 +225,7 @@ def run(ctx):
         # byte changed) and on generated programs that mostly pass its tests, with boundary operands, truncations and unknown opcodes
         for bf in ("Padauk.ttf", "charis_r_gr.ttf", "general.ttf"):
             bfp = str(lib.REPO / "tests" / "fonts" / bf)
-            lims = ask(res, hp, bfp, "codeinfo", 4)
+            lims = codeinfo(res, hp, bfp)
             if lims is None:
                 continue
             li = tuple(int(x) for x in lims)
